@@ -250,7 +250,7 @@ CpNoMore ==
     /\ Running /\ fl.pc = "compact?" /\ CpStop
     /\ fl' = [fl EXCEPT !.pc = "rmimm"] /\ UNCHANGED cpbuf
     /\ CpUnch
-CpDecide == CpNoMore \/ \E c \in CpChoices : CpStart(c[1], c[2])
+CpDecide == fl.pc = "compact?" /\ (CpNoMore \/ \E c \in CpChoices : CpStart(c[1], c[2]))
 
 CpSteps ==
     /\ Running
